@@ -59,6 +59,14 @@ class Dm14Query:
             self._ca.unsubscribe(self._parse_dm15)
             self._ca.subscribe(self._parse_dm16)
 
+    def _end_of_transaction(self) -> None:
+        """
+        Leave no message handler subscribed and return to idle, whatever the outcome was
+        """
+        self._ca.unsubscribe(self._parse_dm15)
+        self._ca.unsubscribe(self._parse_dm16)
+        self.state = QueryState.IDLE
+
     def _send_operation_complete(self) -> None:
         """
         Send DM14 message to confirm the operation is complete
@@ -243,13 +251,16 @@ class Dm14Query:
         # wait for operation completed DM15 message
         raw_bytes = None
         try:
-            raw_bytes = self.data_queue.get(block=True, timeout=max_timeout)
-        except queue.Empty:
-            if self.state is QueryState.WAIT_FOR_SEED:
-                raise RuntimeError("No response from server")
-            pass
-        for _ in range(self.exception_queue.qsize()):
-            raise self.exception_queue.get(block=False, timeout=max_timeout)
+            try:
+                raw_bytes = self.data_queue.get(block=True, timeout=max_timeout)
+            except queue.Empty:
+                if self.state is QueryState.WAIT_FOR_SEED:
+                    raise RuntimeError("No response from server")
+                pass
+            for _ in range(self.exception_queue.qsize()):
+                raise self.exception_queue.get(block=False, timeout=max_timeout)
+        finally:
+            self._end_of_transaction()
         if raw_bytes:
             if self.return_raw_bytes:
                 return raw_bytes
@@ -288,13 +299,16 @@ class Dm14Query:
         self.state = QueryState.WAIT_FOR_SEED
         # wait for operation completed DM15 message
         try:
-            self.data_queue.get(block=True, timeout=max_timeout)
-            for _ in range(self.exception_queue.qsize()):
-                raise self.exception_queue.get(block=False, timeout=max_timeout)
-        except queue.Empty:
-            if self.state is QueryState.WAIT_FOR_SEED:
-                raise RuntimeError("No response from server")
-            pass  # expect empty queue for write
+            try:
+                self.data_queue.get(block=True, timeout=max_timeout)
+                for _ in range(self.exception_queue.qsize()):
+                    raise self.exception_queue.get(block=False, timeout=max_timeout)
+            except queue.Empty:
+                if self.state is QueryState.WAIT_FOR_SEED:
+                    raise RuntimeError("No response from server")
+                pass  # expect empty queue for write
+        finally:
+            self._end_of_transaction()
 
     def set_seed_key_algorithm(self, algorithm: callable) -> None:
         """
